@@ -4,6 +4,7 @@ import (
 	"fmt"
 	"go/token"
 	"go/types"
+	"os"
 	"strings"
 
 	"golang.org/x/tools/go/ssa"
@@ -163,7 +164,15 @@ func (x *exec) enterLoop(st *pstate, b, pred *ssa.BasicBlock, ord int) {
 		ev := x.evalAt(st, x.varScope(st))
 		ev.OldScope = x.entry
 		ev.Pos = inv.Pos
-		st.assume(ev.Bool(inv.E), "loop invariant "+inv.Text)
+		t := ev.Bool(inv.E)
+		if os.Getenv("GOVC_DEBUG_INV") != "" {
+			var names []string
+			for k := range st.vars {
+				names = append(names, k)
+			}
+			fmt.Fprintf(os.Stderr, "DEBUG inv %s vars=%v term=%.300s\n", inv.Text, names, t.String())
+		}
+		st.assume(t, "loop invariant "+inv.Text)
 	}
 	lc := &loopCtx{}
 	if ls.Decreases != nil {
@@ -514,6 +523,16 @@ func (x *exec) covered(st *pstate, t target) *smt.Term {
 			return smt.True
 		}
 		alts = append(alts, smt.IGe(t.loc.Ref, x.next0))
+		if t.loc.Ref.Op == "app" && strings.HasPrefix(t.loc.Ref.Name, "fa$") {
+			// an embedded object (field of struct type): fresh iff the object it is embedded in is
+			x.p.D.AddFunc("rbase", smt.Int, smt.Int)
+			alts = append(alts, smt.IGe(smt.App("rbase", smt.Int, t.loc.Ref), x.next0))
+			parent := t.loc.Ref
+			for parent.Op == "app" && strings.HasPrefix(parent.Name, "fa$") && len(parent.Args) == 1 {
+				parent = parent.Args[0]
+			}
+			alts = append(alts, smt.IGe(parent, x.next0))
+		}
 	} else {
 		alts = append(alts, smt.IGe(t.ref, x.next0))
 		alts = append(alts, smt.BVUge(t.lo, t.hi)) // empty range
@@ -706,6 +725,11 @@ func (x *exec) applyContractInfo(st *pstate, c *Contract, ci callInfo, args []Va
 		}
 		x.check(st, lab, "pre", ev.Bool(r.E), in.Pos(), fmt.Sprintf("precondition of %s: %s", c.C.Key(), r.Text))
 	}
+	for i, a := range args {
+		if at, isTerm := a.(*smt.Term); isTerm && i < len(argTypes) {
+			x.checkValueInv(st, at, argTypes[i], fmt.Sprintf("%s.typeinv[%d]", ob, i), in.Pos(), "the argument passed to "+ci.name)
+		}
+	}
 	x.monitorCallPre(st, c, ci, args, in)
 	pre := st.heapSnapshot()
 	evPre := mkEval(pre, pre)
@@ -840,6 +864,7 @@ func (x *exec) applyContractInfo(st *pstate, c *Contract, ci callInfo, args []Va
 		rv := x.env.FreshVal("ret$"+ci.name, s)
 		st.assume(x.p.T.Inv(rv, rt, 0), "type invariant of result of "+ci.name)
 		x.assumeAllocated(st, rv, rt)
+		x.assumeValueInv(st, rv, rt, "result of "+ci.name)
 		w := x.wrap(rv, rt)
 		if r, isOwned := w.(*ownedRef); isOwned && c.hasProp("view") {
 			r.view, r.epoch = true, st.epoch
